@@ -21,6 +21,14 @@
 extern size_t yr_verif_arena_initial_size;
 #endif
 
+/* The allocation-fault enumerator (C16) interposes malloc at link time; the
+ * shim's own bookkeeping allocations are not part of the code under test, so
+ * they are bracketed by these hooks (defined only in that harness). */
+void ys_fault_suspend(void) __attribute__((weak));
+void ys_fault_resume(void) __attribute__((weak));
+#define HARNESS_ALLOC_BEGIN() do { if (ys_fault_suspend) ys_fault_suspend(); } while (0)
+#define HARNESS_ALLOC_END() do { if (ys_fault_resume) ys_fault_resume(); } while (0)
+
 /* ------------------------------------------------------------------ sbuf */
 typedef struct
 {
@@ -34,7 +42,9 @@ static void sb_reserve(sbuf* b, size_t extra)
   {
     size_t nc = b->cap ? b->cap * 2 : 256;
     while (nc < b->len + extra + 1) nc *= 2;
+    HARNESS_ALLOC_BEGIN();
     char* np = (char*) realloc(b->p, nc);
+    HARNESS_ALLOC_END();
     if (np == NULL)
       abort();
     b->p = np;
@@ -84,7 +94,9 @@ static char* sb_take(sbuf* b)
 {
   if (b->p == NULL)
   {
+    HARNESS_ALLOC_BEGIN();
     b->p = (char*) malloc(1);
+    HARNESS_ALLOC_END();
     if (b->p == NULL)
       abort();
     b->p[0] = 0;
@@ -183,7 +195,9 @@ static void include_free_cb(const char* p, void* user) {}
 
 ys_compiler* ys_compiler_new(int* err)
 {
+  HARNESS_ALLOC_BEGIN();
   ys_compiler* yc = (ys_compiler*) calloc(1, sizeof(*yc));
+  HARNESS_ALLOC_END();
   if (yc == NULL)
   {
     if (err)
@@ -300,7 +314,9 @@ int ys_compiler_get_rules(ys_compiler* yc, ys_rules** out)
   int rc = yr_compiler_get_rules(yc->c, &r);
   if (rc != ERROR_SUCCESS)
     return rc;
+  HARNESS_ALLOC_BEGIN();
   ys_rules* yr = (ys_rules*) calloc(1, sizeof(*yr));
+  HARNESS_ALLOC_END();
   if (yr == NULL)
   {
     yr_rules_destroy(r);
@@ -373,7 +389,9 @@ static size_t ms_write(const void* ptr, size_t size, size_t count, void* user)
   {
     size_t nc = m->cap ? m->cap * 2 : 4096;
     while (nc < m->len + n) nc *= 2;
+    HARNESS_ALLOC_BEGIN();
     uint8_t* np = (uint8_t*) realloc(m->p, nc);
+    HARNESS_ALLOC_END();
     if (np == NULL)
     {
       m->fail = 1;
@@ -467,7 +485,9 @@ static int wrap_rules(int rc, YR_RULES* r, ys_rules** out)
   *out = NULL;
   if (rc != ERROR_SUCCESS)
     return rc;
+  HARNESS_ALLOC_BEGIN();
   ys_rules* yr = (ys_rules*) calloc(1, sizeof(*yr));
+  HARNESS_ALLOC_END();
   if (yr == NULL)
   {
     yr_rules_destroy(r);
@@ -597,7 +617,9 @@ ys_scanner* ys_scanner_new(ys_rules* r, int* err)
     *err = rc;
   if (rc != ERROR_SUCCESS)
     return NULL;
+  HARNESS_ALLOC_BEGIN();
   ys_scanner* ys = (ys_scanner*) calloc(1, sizeof(*ys));
+  HARNESS_ALLOC_END();
   if (ys == NULL)
   {
     yr_scanner_destroy(s);
@@ -837,7 +859,9 @@ int ys_scan(ys_rules* r, ys_scanner* s, const uint8_t* data, size_t len,
     /* scan an exact-size heap copy: the caller's buffer (a std::string) has a
      * terminating NUL and spare capacity that would hide a read past the end
      * from AddressSanitizer */
+    HARNESS_ALLOC_BEGIN();
     uint8_t* exact = (uint8_t*) malloc(len);
+    HARNESS_ALLOC_END();
     if (exact == NULL && len > 0)
     {
       rc = -3;
@@ -884,7 +908,9 @@ int ys_scan(ys_rules* r, ys_scanner* s, const uint8_t* data, size_t len,
   {
     blk_ctx bc;
     memset(&bc, 0, sizeof(bc));
+    HARNESS_ALLOC_BEGIN();
     uint8_t* exact = (uint8_t*) malloc(len);
+    HARNESS_ALLOC_END();
     if (exact != NULL && len > 0)
       memcpy(exact, data, len);
     if (exact != NULL || len == 0)
